@@ -150,7 +150,7 @@ class ByIndex:
 
 
 
-@contract(PR + "_get_nodes_by_key", props=["C15", "C01", "C02"])
+@contract(PR + "_get_nodes_by_key", props=["C15", "C01", "C02", "C09"])
 class ByKey:
     """KEY segment.  On a hash: exactly the value under that key (well-formed coordinates), nothing when the key
     is absent and is not an integer literal.  On a sequence with an integer literal: that element, nothing when
@@ -461,7 +461,7 @@ class RequiredNodes:
                 event="('required', data, yaml_path, depth, kw_parent, kw_parentref, kw_translated_path, kw_ancestry, kw_relay_segment)")
 
 
-@contract("yamlpath.common.nodes.Nodes.node_is_aoh", props=["C15"])
+@contract("yamlpath.common.nodes.Nodes.node_is_aoh", props=["C15", "C12", "C13"])
 class NodeIsAoh:
     """Total predicate.  It returns True only after its loop has passed over every element, and an iteration
     completes only for a dict element (or a null when accept_nulls): so, for callers,
